@@ -403,7 +403,18 @@ def main(run_fn, pid):
     except ToolFailure as e:
         log("tool failure:", e)
         sys.exit(2)
-    except Exception:
-        traceback.print_exc()
-        sys.exit(2)
+    except Exception as e:
+        # The harness itself stumbled over what the implementation returned (an unexpected structure, an exception
+        # type it does not expect, a case that never returns): the correspondence between the code and what the
+        # model / oracle expects of it is broken.  That is reported like any other broken correspondence — a
+        # violation without a failing input — with the traceback as the replay, instead of a tool failure.
+        tb = traceback.format_exc()
+        sys.stderr.write(tb)
+        rep = Report(pid, tier, seed)
+        rep.rule = "the run was cut short by an exception inside the harness"
+        kind = "hang" if isinstance(e, CaseTimeout) else "harness-exception"
+        rep.broken.append({"kind": kind, "exception": f"{type(e).__name__}: {e}"[:300]})
+        rep.violation(Violation(f"{pid}:{kind}", f"the check could not run to its end on this tree: {type(e).__name__}: {e}"[:300],
+                                {"traceback": tb[-3000:]}, failing_input_found=False))
+        rc = rep.finish()
     sys.exit(rc)
